@@ -284,7 +284,7 @@ def main():
         'checks': checks,
         'notes': 'Every check: bin/check <ID> --tier quick|thorough; exit 0 '
                  'held, 1 VIOLATION, 2 harness error. VERIF_SEED honoured. '
-                 'known_findings.json is read-only at run time (14 entries '
+                 'known_findings.json is read-only at run time (15 entries '
                  'fixed: they suppress nothing; 1 entry known: K1 on C15, '
                  'matched by signature {clause, w_shape}, printed as '
                  'KNOWN-FINDING on every run). Before generating, each '
